@@ -75,7 +75,7 @@ func classOf(s string) string {
 	return strings.Join(cs, "+")
 }
 
-var litSites = []string{"table-comment", "column-comment", "default", "default-double-quoted", "check", "enum-value", "enum-value-first", "enum-value-middle", "index-comment"}
+var litSites = []string{"table-comment", "column-comment", "default", "default-double-quoted", "check", "check-raw", "enum-value", "enum-value-first", "enum-value-middle", "index-comment"}
 var identSites = []string{"column-name", "index-name", "table-name", "first-table-name"}
 var formatters = []string{"atlas", "golang-migrate", "goose", "flyway", "liquibase", "dbmate"}
 
